@@ -349,6 +349,34 @@ def check_order_nonorth(res, tier):
             res.traces += 1
 
 
+def check_shared_separatrix(res, tier):
+    """orthogonal grids with boundary guard cells: the private-flux part and the SOL part of a divertor leg are gridded separately from the same
+    separatrix contour with the same spacing function, so their points on the separatrix coincide (x-neighbouring cells share their corners)"""
+    import gridlab
+    from props.c08 import y_adjacent_corner_mismatch  # noqa: F401
+
+    specs = [gridlab.tokamak_spec("lsn", options={"y_boundary_guards": 2}), gridlab.tokamak_spec("cdn", options={"y_boundary_guards": 1})]
+    for g in gridlab.get(specs):
+        name = "%s guards=%d" % (g["spec"]["geometry"], g["spec"]["options"]["y_boundary_guards"])
+        res.case(key=("shared-separatrix", name), nontrivial=True, sample={"op": "separatrix points of the PF and SOL parts of a leg", "grid": name})
+        if g["error"]:
+            res.extra.setdefault("grid_refused", []).append([name, str(g["error"][:2])[:160]])
+            continue
+        v = g["vars"]
+        worst, where = 0.0, None
+        for (a_, b_) in (("_lower_right_corners", "_corners"), ("_upper_right_corners", "_upper_left_corners")):
+            d = np.hypot(v["Rxy" + a_][:-1, :] - v["Rxy" + b_][1:, :], v["Zxy" + a_][:-1, :] - v["Zxy" + b_][1:, :])
+            if d.size and float(np.nanmax(d)) > worst:
+                worst = float(np.nanmax(d))
+                where = tuple(int(q) for q in np.unravel_index(np.nanargmax(d), d.shape))
+        res.extra.setdefault("shared_separatrix_mismatch_m", {})[name] = worst
+        if worst > 1e-6:
+            res.violation("separatrix-points-differ", "%s: cells (%d, %d) and (%d, %d) are x-neighbours but their shared corner differs by %.3g m: the two radial parts "
+                          "of the region placed different points on the contour they share" % (name, where[0], where[1], where[0] + 1, where[1], worst), {"spec": g["spec"]})
+        else:
+            res.traces += 1
+
+
 def check_combined(res, tier):
     """the combined spacing function of every flux surface of a real non-orthogonal mesh (EquilibriumRegion.combineSfuncs applied to the
     contour and its orthogonal spacing function, as MeshRegion.distributePointsNonorthogonal does): index 0 -> distance 0 and the last index
@@ -488,6 +516,7 @@ def run(res, tier):
     check_regions(res, tier)
     check_order_nonorth(res, tier)
     check_combined(res, tier)
+    check_shared_separatrix(res, tier)
 
 
 def replay(rep):
